@@ -6,6 +6,7 @@ import IodineModel.Drv.Login
 import IodineModel.Drv.FwQuery
 import IodineModel.Drv.Slots
 import IodineModel.Drv.WireRead
+import IodineModel.Drv.WirePut
 import IodineModel.Drv.Server
 import IodineModel.Drv.Shell
 /-
@@ -25,7 +26,7 @@ def firstSome (fs : List (List String → Option String)) (toks : List String) :
 
 def step (st : DrvState) (line : String) : DrvState × String :=
   let toks := (line.trimAscii.toString.splitOn " ").filter (fun t => t ≠ "")
-  match firstSome [Drv.Codec.handle, Drv.Encoding.handle, Drv.Users.handle, Drv.Login.handle, Drv.Common.handle, Drv.WireRead.handle, Drv.Shell.handle] toks with
+  match firstSome [Drv.Codec.handle, Drv.Encoding.handle, Drv.Users.handle, Drv.Login.handle, Drv.Common.handle, Drv.WireRead.handle, Drv.WirePut.handle, Drv.Shell.handle] toks with
   | some r => (st, r)
   | none =>
     match Drv.FwQuery.handle st.fw toks with
